@@ -12,6 +12,23 @@ NOT_BUILT = "check not built yet in this round (claimed by DESIGN.md; " \
             "listed here until its static check exists and is exact)"
 
 CHECKS = {
+    "C07": {
+        "text": "NARROW: decides non-negativity of the TTP error count "
+                "(counter starts at 0, only `+=`, each of the 13 increments "
+                "proven >= 0 under its path guards by linear entailment), "
+                "that both scratch tables are reset by fill() before any "
+                "use on every path, and exhaustiveness of rule coverage "
+                "(every streak/separation limit and the games-per-pairing "
+                "count is consumed by some error term; bye and both "
+                "consistency tests have a site).",
+        "design_ref": "DESIGN.md section 4, C07",
+        "note": "Does NOT decide 'zero iff feasible', the per-rule counts "
+                "or the declared upper bound: these quantify over the "
+                "behaviour of a streak/separation state machine on all "
+                "plans - no sound static argument in reach.",
+        "technique": "sign analysis by linear entailment under path "
+                     "guards + CFG dominance + parameter-use coverage",
+    },
     "C03": {
         "text": "NARROW: decides that the geometric component of the "
                 "bin-count lower bound is an exact integer ceiling (one of "
